@@ -10,6 +10,13 @@ From SCC Require Export Proof.SimFrag.   (* the fragments and the back-end indep
 Import ListNotations.
 Open Scope Z_scope.
 Open Scope list_scope.
+(* names that lived in this file before they moved to Proof/SimFrag.v (kept for qualified uses) *)
+Notation is_int_binding := SimFrag.is_int_binding (only parsing).
+Notation ctx_int := SimFrag.ctx_int (only parsing).
+Notation lookup_nth := SimFrag.lookup_nth (only parsing).
+Notation nth_lookup := SimFrag.nth_lookup (only parsing).
+Notation env_ctx_nth := SimFrag.env_ctx_nth (only parsing).
+Notation nth_error_mid := SimFrag.nth_error_mid (only parsing).
 
 (* ---------- what straight-line code leaves alone ---------- *)
 (* everything but registers, flags and spill slots: heap, output, the stack outside the spill
